@@ -87,9 +87,48 @@ func equalSpecs(thorough bool) []composeSpec {
 			}})
 		}
 	}
+	// a copy that is one element shorter, and a copy of another kind with the same points
+	for _, h := range allHyps(kinds, thorough) {
+		if h == nil || h.Nil {
+			continue
+		}
+		h := h
+		cases = append(cases, composeCase{h.String() + " and a copy without its last element", func(it *Interp, s *State) ([]AV, interface{}) {
+			g := it.buildIface(s, h)
+			c := 0
+			cp := copyGeom(it, s, g, -1, &c)
+			want := true
+			if iv, ok := cp.(IfaceV); ok {
+				if sl, ok := iv.Val.(SliceV); ok && !sl.Nil && sl.Hi-sl.Lo >= 1 {
+					sl.Hi--
+					iv.Val = sl
+					cp, want = iv, false
+				}
+			}
+			return []AV{g, cp}, &eqCtx{want: want}
+		}})
+		if h.Kind == "MultiPoint" || h.Kind == "LineString" || h.Kind == "Ring" {
+			for _, other := range []string{"MultiPoint", "LineString", "Ring"} {
+				if other == h.Kind {
+					continue
+				}
+				other := other
+				cases = append(cases, composeCase{h.String() + " and its points as a " + other, func(it *Interp, s *State) ([]AV, interface{}) {
+					g := it.buildIface(s, h)
+					c := 0
+					cp := copyGeom(it, s, g, -1, &c)
+					if iv, ok := cp.(IfaceV); ok {
+						iv.Typ = it.p.Kind(other)
+						cp = iv
+					}
+					return []AV{g, cp}, &eqCtx{want: false}
+				}})
+			}
+		}
+	}
 	return []composeSpec{{
 		entry: "orb.Equal", terms: true, generalPosition: true, cases: cases,
-		desc: "a geometry equals its copy in other memory, and does not equal the copy with any one coordinate replaced by a different value",
+		desc: "a geometry equals its copy in other memory, and does not equal the copy with any one coordinate replaced by a different value, the copy without its last element, or the same points as another kind",
 		judge: func(_ *Interp, cx interface{}, st *State) string {
 			ctx := cx.(*eqCtx)
 			got, ok := exactBool(st.result[0])
@@ -100,7 +139,7 @@ func equalSpecs(thorough bool) []composeSpec {
 				if ctx.want {
 					return "a geometry and its copy with the same coordinates are reported different"
 				}
-				return "a copy with one coordinate changed is reported equal: that coordinate (its vertex, member or axis) is not compared"
+				return "a copy that differs (one coordinate changed, one element fewer, or another kind) is reported equal"
 			}
 			return ""
 		},
